@@ -164,6 +164,81 @@ func uvarintAt(b []byte, p int) (uint64, int) {
 	return 0, -1
 }
 
+// c09IndexFields walks a serialized index (either sorted codec) and returns the offsets of its
+// 4-byte fields (bucket counts, record widths) and 8-byte fields (hash codes, data lengths).
+func c09IndexFields(idx []byte) (u32s, u64s []int) {
+	if len(idx) < 2 {
+		return
+	}
+	p := 2 // codec varint 0x0400 / 0x0401 is two bytes
+	multi := func() bool {
+		if p+4 > len(idx) {
+			return false
+		}
+		n := int(uint32(idx[p]) | uint32(idx[p+1])<<8 | uint32(idx[p+2])<<16 | uint32(idx[p+3])<<24)
+		u32s = append(u32s, p)
+		p += 4
+		for i := 0; i < n && i < 64; i++ {
+			if p+12 > len(idx) {
+				return false
+			}
+			u32s = append(u32s, p)
+			u64s = append(u64s, p+4)
+			dl := int(leU64(idx[p+4 : p+12]))
+			p += 12
+			if dl < 0 || p+dl > len(idx) {
+				return false
+			}
+			p += dl
+		}
+		return true
+	}
+	if idx[0] == 0x80 { // car-index-sorted
+		multi()
+		return
+	}
+	if p+4 > len(idx) {
+		return
+	}
+	n := int(uint32(idx[p]) | uint32(idx[p+1])<<8)
+	u32s = append(u32s, p)
+	p += 4
+	for i := 0; i < n && i < 64; i++ {
+		if p+8 > len(idx) {
+			return
+		}
+		u64s = append(u64s, p)
+		p += 8
+		if !multi() {
+			return
+		}
+	}
+	return
+}
+
+// c09MutateIndex overwrites one structural field of a serialized index with an extreme value.
+func (g *Gen) c09MutateIndex(idx []byte) []byte {
+	m := append([]byte{}, idx...)
+	u32s, u64s := c09IndexFields(m)
+	if len(u32s) == 0 {
+		return m
+	}
+	if len(u64s) > 0 && g.pick(3) == 0 {
+		at := u64s[g.pick(len(u64s))]
+		v := []uint64{0, 1, 7, 1 << 31, 1 << 40, 1<<63 - 1, ^uint64(0), uint64(len(idx))}[g.pick(8)]
+		for k := 0; k < 8; k++ {
+			m[at+k] = byte(v >> (8 * k))
+		}
+		return m
+	}
+	at := u32s[g.pick(len(u32s))]
+	v := []uint32{0, 1, 7, 8, 9, 1 << 20, 1<<31 - 1, 1 << 31, ^uint32(0)}[g.pick(9)]
+	for k := 0; k < 4; k++ {
+		m[at+k] = byte(v >> (8 * k))
+	}
+	return m
+}
+
 // structural mutations aimed at the numbers parsers trust: length prefixes, header fields,
 // index counts / widths / lengths.
 func (g *Gen) c09Mutate(arch []byte, ver int) []byte {
@@ -224,6 +299,12 @@ func famC09(g *Gen, o *Out, n int, thorough bool) {
 		for i := 0; i < 8; i++ {
 			inputs = append(inputs, g.c09Mutate(arch, ver))
 		}
+		if idxFile != nil { // the same archive with one structural field of its embedded index overwritten
+			for i := 0; i < 3; i++ {
+				io_ := int(leU64(arch[43:51]))
+				inputs = append(inputs, append(append([]byte{}, arch[:io_]...), g.c09MutateIndex(idxFile)...))
+			}
+		}
 		// structure-aware: every section's (and the header's) length prefix replaced by an extreme varint,
 		// including ones that make "length - cidLength" negative and point back at a section start
 		{
@@ -277,6 +358,9 @@ func famC09(g *Gen, o *Out, n int, thorough bool) {
 						continue
 					}
 					input = g.c09Mutate(idxFile, 0)
+					if g.pick(2) == 0 {
+						input = g.c09MutateIndex(idxFile)
+					}
 				}
 				seq++
 				os.WriteFile(lastCase, []byte(fmt.Sprintf("ep=%s %s in=%s\n", ep, ro, hex.EncodeToString(input))), 0o644)
